@@ -69,3 +69,16 @@ Theorem C18_sample_run :
   = true.
 Proof. vm_compute. reflexivity. Qed.
 Print Assumptions C18_sample_run.
+
+(* the guard on today's constants: the root listing of an otherwise healthy endpoint names itself as next page;
+   list_all_files raises the request error for that url after token + site + ONE listing request (replayed on the
+   real client by the check).  links_in is satisfiable: the only nextLink of this world is u. *)
+Theorem C18_cycle_witness :
+  let u := children_url E0 (s "SITE") None None in
+  let table := [(site_api_url E0, site_obj (s "SITE")); (u, page_obj [] (Some u))] in
+  let '(r, s1) := run E0 (healthy E0 (s "TOK") table) (list_all_files E0 60) st0 in
+  match r with Raise (RequestError None u') => str_eqb u' u | _ => false end
+  && Nat.eqb (nreq s1) 3 && Nat.eqb (opened s1) (closed s1) && Nat.eqb (unseen [u] []) 1
+  = true.
+Proof. vm_compute. reflexivity. Qed.
+Print Assumptions C18_cycle_witness.
